@@ -125,10 +125,8 @@ impl<'a> Program<'a> {
 
         /* We only support functions and string variables in stdlib right now */
         if obj.components.len() > 1 {
-            for c in obj.components.iter().skip(1) {
-                println!(" > comp: lookup {}", c);
-            }
-            unreachable!();
+            println!("no members in library symbol: {}", topvar);
+            return Err(TypeError);
         }
 
         Ok(ret)
